@@ -64,3 +64,56 @@ def module_globals(ctx, clause):
                 isinstance(n, ast.Global) and name in n.names for n in walk_own(f.node))]
             obs.append((m, name, users))
     return obs
+
+
+def module_level_mutables(ctx, clause):
+    """Module-level mutable containers (dict/list/set/OrderedDict ... bound at import time) that a function of the package
+    mutates at run time: state that outlives every Shaper of the process (caches, registries, counters in a list).
+    Returns obligations, one per container; a container nobody writes is a constant table."""
+    p = ctx.p
+    obs, n = [], 0
+    for m in p.modules.values():
+        for name, expr in m.consts.items():
+            if not _is_mutable(expr) and not (isinstance(expr, ast.Call) and isinstance(expr.func, ast.Attribute)
+                                              and expr.func.attr in _MUTABLE_CALLS):
+                continue
+            n += 1
+            writers = []
+            for f in p.funcs.values():
+                # the name as seen from f's module
+                local = None
+                if f.module is m:
+                    local = name
+                else:
+                    for ln, imp in f.module.imports.items():
+                        if imp[0] == "name" and imp[1] == m.name and imp[2] == name:
+                            local = ln
+                if local is None or local in f.local_names or local in f.params:
+                    continue
+                for x in walk_own(f.node):
+                    tgt = None
+                    if isinstance(x, ast.Call) and isinstance(x.func, ast.Attribute) and x.func.attr in MUTATORS | {"move_to_end", "popitem", "setdefault"}:
+                        tgt = x.func.value
+                    elif isinstance(x, (ast.Assign, ast.AugAssign)):
+                        for t in (x.targets if isinstance(x, ast.Assign) else [x.target]):
+                            if isinstance(t, ast.Subscript):
+                                tgt = t.value
+                    elif isinstance(x, ast.Delete):
+                        for t in x.targets:
+                            if isinstance(t, ast.Subscript):
+                                tgt = t.value
+                    if isinstance(tgt, ast.Name) and tgt.id == local:
+                        writers.append((f, x))
+            key = "R-GLOBAL|module-container|%s.%s" % (m.name.split(".")[-1], name)
+            live = [(f, x) for f, x in writers if ctx.reachable(f)]
+            if live:
+                f, x = live[0]
+                obs.append(Ob(clause, "R-GLOBAL", key, f.loc(x), False,
+                              "%s.%s is a module-level container written at run time by %s (`%s`): what one Shaper (or one call) "
+                              "stores there is seen by every later one in the process - results depend on the history of the "
+                              "process, not only on the arguments and the input" % (m.name, name, ", ".join(sorted({w.short for w, _ in live})),
+                                                                                    norm(x)[:50])))
+            else:
+                obs.append(Ob(clause, "R-GLOBAL", key, m.relpath + ":%d" % getattr(expr, "lineno", 1), True,
+                              "module-level container %s.%s is never written at run time" % (m.name.split(".")[-1], name)))
+    return obs, n
